@@ -18,7 +18,7 @@ RULE = ('roundtrip units: random lists of 0..8 (key,value) pairs, keys non-empty
         'all three of its output modes under a step budget, plus random junk incl. lone surrogates-free Unicode. Non-trivial = '
         'the pair list has a repeated key or a character that needs escaping; distinct = distinct encoded string.')
 PYOPT = {'quick': 1, 'thorough': 1}     # one unit of every kind is also served by an interpreter started with -O (assert statements compiled out)
-REQUIRED = ['units_run_under_python_-O', 'query_replaced_after_a_first_read', 'body_consumed_before_forms', 'roundtrips_query', 'roundtrips_forms', 'roundtrips_params', 'repeated_key_cases', 'list_values_seen',
+REQUIRED = ['units_run_under_python_-O', 'attribute_access_compared', 'query_replaced_after_a_first_read', 'body_consumed_before_forms', 'roundtrips_query', 'roundtrips_forms', 'roundtrips_params', 'repeated_key_cases', 'list_values_seen',
             'totality_strings', 'via_wsgi', 'chunked_forms']
 EXHAUSTIVE = {'quick': False, 'thorough': False,
               'quick_note': 'totality sweep is complete for all strings of length<=6 over {a,=,&,%,+,2}',
@@ -90,6 +90,18 @@ def gen_pairs(rng):
 
 
 def _cmp(ctx, where, got, exp, wit):
+    # the other ways to the same values: attribute access (missing names read as None) and copy()
+    if hasattr(type(got), 'copy') and type(got).__name__ == 'FormsDict':
+        for k in list(exp)[:4] + ['no_such_field']:
+            if k.isidentifier() and not k.startswith('__') and not hasattr(dict, k):
+                ctx.count('attribute_access_compared')
+                if getattr(got, k) != dict.get(got, k):
+                    ctx.violation(f'{where}:attribute-access-differs-from-item-access', f'{where}: .{k} -> {getattr(got, k)!r}, [{k!r}] -> {dict.get(got, k)!r}', wit)
+                    return False
+        cp = got.copy()
+        if dict(cp) != dict(got) or type(cp) is not type(got) or list(cp) != list(got):
+            ctx.violation(f'{where}:copy-differs', f'{where}: copy() {dict(cp)!r} of {dict(got)!r}', wit)
+            return False
     got = dict(got)
     if got != exp or list(got) != list(exp):
         # classify
